@@ -292,6 +292,41 @@ def _schema_extends(ctx, rng, root):
                             {"composed": comp, "expanded": exp, "text": t}, signature="C11:schema-extends:behaviour")
                 break
 
+    # bases in ANOTHER directory whose own relative references (extends, <import src>) are relative to themselves; same-named
+    # decoys sit next to the extending schema
+    app, lib = os.path.join(d, "app"), os.path.join(d, "lib")
+    os.makedirs(app, exist_ok=True)
+    os.makedirs(lib, exist_ok=True)
+
+    def w2(dr, n, t):
+        with open(os.path.join(dr, n), "w") as f:
+            f.write(t)
+    w2(lib, "base.xml", "<schema><key name='origin' default='lib-base'/><key name='port' datatype='integer' default='80'/></schema>")
+    w2(lib, "types.xml", "<schema><sectiontype name='libtype'><key name='k' default='from-lib'/></sectiontype></schema>")
+    w2(lib, "mid.xml", "<schema extends='base.xml'><import src='types.xml'/><section type='libtype' name='*' attribute='lt'/></schema>")
+    w2(app, "base.xml", "<schema><key name='origin' default='app-decoy'/><key name='port' datatype='integer' default='8080'/></schema>")
+    w2(app, "types.xml", "<schema><sectiontype name='libtype'><key name='k' default='from-decoy'/></sectiontype></schema>")
+    w2(app, "top.xml", "<schema extends='../lib/mid.xml'><key name='Own'/></schema>")
+    merged = ("<schema><key name='origin' default='lib-base'/><key name='port' datatype='integer' default='80'/>"
+              "<sectiontype name='libtype'><key name='k' default='from-lib'/></sectiontype><section type='libtype' name='*' attribute='lt'/><key name='Own'/></schema>")
+    ctx.evaluations += 1
+    ctx.nontriv("schema-extends-other-directory")
+    try:
+        import ZConfig
+        a, b = ZConfig.loadSchema(os.path.join(app, "top.xml")), _load(merged)
+        for t in ["", "<libtype/>\n", "origin x\nport 1\n<libtype>\nk v\n</libtype>\n"]:
+            ra, rb = _behaves(a, t), _behaves(b, t)
+            ctx.evaluations += 1
+            if ra != rb:
+                ctx.violate("a schema extending a base in another directory (whose relative references belong to that directory) behaves "
+                            "differently from the merged schema on %r: %r vs %r" % (t, ra, rb),
+                            {"composed": "app/top.xml extends ../lib/mid.xml, which extends base.xml and imports types.xml (decoys of both in app/)",
+                             "expanded": merged, "text": t}, signature="C11:schema-extends:behaviour")
+                break
+    except Exception as e:
+        ctx.violate("a schema extending a base in another directory failed to load: %s: %s" % (type(e).__name__, str(e)[:200]),
+                    {"expanded": merged}, signature="C11:schema-extends:load")
+
 
 def _components(ctx, rng, pk):
     base = pk.add_component([F.AbsD("cab"), F.TypeD("cbase", [F.KeyD("k", "integer", default="1")])])
@@ -388,6 +423,47 @@ def _components(ctx, rng, pk):
                 break
     except Exception as e:
         ctx.notes.append("config-import scenario failed to set up: %s" % e)
+    # a schema loaded with an APPLICATION registry (an extra datatype name, a replaced stock datatype): a component %import-ed by
+    # the configuration, imported by the schema, or written in place means the same
+    try:
+        import io
+        import ZConfig.datatypes
+        from ZConfig.loader import SchemaLoader, ConfigLoader
+        preg = pk.add_component([])
+        with open(_os.path.join(pk.root, preg, "component.xml"), "w") as f:
+            f.write("<component><sectiontype name='regt' implements='cab'><key name='a' datatype='shout' default='dflt'/>"
+                    "<key name='b' datatype='string-list' default='p,q r'/></sectiontype></component>")
+
+        def mkreg():
+            reg = ZConfig.datatypes.Registry()
+            reg.register("shout", lambda v: v.upper() + "!")
+            reg._stock["string-list"] = lambda v: v.split(",")
+            return reg
+        tin = "<sectiontype name='regt' implements='cab'><key name='a' datatype='shout' default='dflt'/><key name='b' datatype='string-list' default='p,q r'/></sectiontype>"
+        forms = {"config-import": ("<schema><abstracttype name='cab'/>%s</schema>" % body, "%%import %s\n" % preg),
+                 "schema-import": ("<schema><abstracttype name='cab'/><import package='%s'/>%s</schema>" % (preg, body), ""),
+                 "in-place": ("<schema><abstracttype name='cab'/>%s%s</schema>" % (tin, body), "")}
+        res = {}
+        for form, (xml, pre) in forms.items():
+            sch = SchemaLoader(mkreg()).loadFile(io.StringIO(xml))
+            outs = []
+            for t in ["<regt/>\n", "<regt>\na x,y\nb 1,2 3\n</regt>\n"]:
+                try:
+                    cfg, _ = ConfigLoader(sch).loadFile(io.StringIO(pre + t))
+                    outs.append(["ok", [(i.a, i.b) for i in cfg.items]])
+                except ZConfig.ConfigurationError as e:
+                    outs.append(["cfg", type(e).__name__, str(e)[:80]])
+                except Exception as e:
+                    outs.append(["exc", type(e).__name__])
+            res[form] = outs
+            ctx.evaluations += 2
+        ctx.nontriv("application-registry")
+        if not (res["config-import"] == res["schema-import"] == res["in-place"]):
+            ctx.violate("with an application datatype registry a component means different things %%import-ed by the configuration, imported by "
+                        "the schema and written in place: %r" % (res,), {"forms": {k: v[0] for k, v in forms.items()}, "results": res},
+                        signature="C11:import:registry")
+    except Exception as e:
+        ctx.notes.append("application-registry scenario failed to set up: %s: %s" % (type(e).__name__, e))
     for v in variants:
         ctx.evaluations += 1
         ctx.nontriv(v)
